@@ -313,6 +313,10 @@ type j2tOutcome struct {
 // (prefix preserved, canary intact, len<=cap, input unmodified).
 func runJ2T(w *W, cv *j2t.BinaryConv, desc *thrift.TypeDescriptor, js []byte, env j2tEnv, ctx context.Context) j2tOutcome {
 	in := w.AllocData(js, env.InPlace)
+	doc, tailOK := in.B, func() bool { return true }
+	if env.InPlace == simrt.PlaceHeap && len(js)%2 == 0 {
+		doc, tailOK = withTail(js) // the input is a prefix of a larger buffer of the caller's
+	}
 	var res j2tOutcome
 	// logical-step budget: the re-entry loop between Go and the native state machine passes a yield per
 	// round (handleError); a conversion that does not converge is a violation, not a hung worker
@@ -321,7 +325,7 @@ func runJ2T(w *W, cv *j2t.BinaryConv, desc *thrift.TypeDescriptor, js []byte, en
 	defer func() { w.World.StepLimit = savedLimit }()
 	res.Facts = map[string]string{"api": "Do"}
 	if !env.DoInto {
-		out, err := cv.Do(ctx, desc, in.B)
+		out, err := cv.Do(ctx, desc, doc)
 		res.Out, res.Err = out, err
 	} else {
 		res.Facts["api"] = "DoInto"
@@ -334,7 +338,7 @@ func runJ2T(w *W, cv *j2t.BinaryConv, desc *thrift.TypeDescriptor, js []byte, en
 		for i := 0; i < env.Prefix; i++ {
 			buf = append(buf, byte(0xC0+i%16))
 		}
-		err := cv.DoInto(ctx, desc, in.B, &buf)
+		err := cv.DoInto(ctx, desc, doc, &buf)
 		res.Err = err
 		own := ob.Owns(buf)
 		res.Facts["kept_caller_buffer"] = fmt.Sprint(own)
@@ -355,7 +359,10 @@ func runJ2T(w *W, cv *j2t.BinaryConv, desc *thrift.TypeDescriptor, js []byte, en
 		}
 		res.Out = buf[env.Prefix:]
 	}
-	if !bytes.Equal(in.B, js) {
+	if !tailOK() {
+		w.Failf("input-modified", nil, "conversion wrote into the caller's buffer behind the end of its input")
+	}
+	if !bytes.Equal(in.B, js) || !bytes.Equal(doc, js) {
 		w.Failf("input-modified", nil, "conversion modified its input")
 	}
 	return res
